@@ -22,6 +22,10 @@ def strings(rng):
     return out
 
 
+def base_long():
+    return "correct horse battery staple 0123456789" * 3
+
+
 def gen(tier, rng):
     S = strings(rng)
     out = []
@@ -31,6 +35,18 @@ def gen(tier, rng):
                 if tier == "quick" and (i * 131 + j * 7 + ti) % 9 != 0 and a != b and i != 5 and j != 5:
                     continue
                 out.append(("SECEQ %s %s %s" % (ty, C.tb(a), C.tb(b)), "equal" if a == b else "different"))
+    # one-character affix sweep: a value against itself extended or shortened by ONE character (every ASCII
+    # character incl. line terminators and blanks, CR LF as a pair, some non-ASCII), at either end
+    affixes = [chr(c) for c in range(128)] + ["\r\n", "\n\n", "\u00a0", "\u2028", "\ufeff", "é"]
+    bases = ["", "hunter2", "tok\n", " x ", base_long()]
+    for ti, ty in enumerate(TYPES):
+        for bi, a in enumerate(bases):
+            for ai, f in enumerate(affixes):
+                if tier == "quick" and (ai + ti + bi) % 3 != 0 and f not in ("\n", "\r", "\r\n", " ", "\t", "\x00"):
+                    continue
+                for b in (a + f, f + a):
+                    out.append(("SECEQ %s %s %s" % (ty, C.tb(a), C.tb(b)), "affix"))
+                    out.append(("SECEQ %s %s %s" % (ty, C.tb(b), C.tb(a)), "affix"))
     n = 500 if tier == "quick" else 50000
     for _ in range(n):
         a = "".join(rng.choice("abé\x00 ") for _ in range(rng.randint(0, 6)))
@@ -43,7 +59,7 @@ def run(tier, rng, C):
     cases = gen(tier, rng)
     v, stats = C.differential("C20", cases, nontrivial=lambda l, o: True)
     stats["rule"] = ("10 secret types x pairs from ~90 strings (equal, one-byte difference at every offset of a 39-byte string, prefixes, length differences, empty, NUL, "
-                     "NFC/NFD and compatibility look-alikes, SHA-256 block-boundary lengths) + random short pairs; observation = (==, symmetric ==, hash equality when ==, content equality); "
+                     "NFC/NFD and compatibility look-alikes, SHA-256 block-boundary lengths) + one-character affix sweep (every ASCII character, CR LF, NBSP, LS, BOM at either end of five bases, both argument orders) + random short pairs; observation = (==, symmetric ==, hash equality when == with the second hash taken on a freshly spawned thread as well, content equality); "
                      "the model computes == as equality of Gallina SHA-256 digests; every case non-trivial")
     return v, stats
 
